@@ -20,9 +20,12 @@ RULE = ("(a) atom histories from one PRNG (VERIF_SEED): 1-3 groups (valid and in
         "different modes, interleavings over up to 3 files, full teardown followed by HPend and a fresh cycle; two or three "
         "files open at once holding objects under identical tag/refs (ordinary, linked-block, compressed, external, chunked "
         "elements, Vdatas, Vgroups, images, datasets) with whole-content reads through every id, Vinsert with ids of the "
-        "same / another file; each answer of the library is judged by the abstract handle table (identity of the object "
+        "same / another file; SD table histories: files closed out of order, SDreset_maxopenfiles with every request around "
+        "the number of open files and the highest occupied position (and far ones, and on the unallocated table), every "
+        "live SD id used after each request, more opens afterwards; each answer of the library is judged by the abstract handle table (identity of the object "
         "computed from the content returned).  (c) file machine histories (open/close/"
-        "start/end, shared paths).  A case is one call; distinct by (history text, position)")
+        "start/end, shared paths).  (d) the positions NC_open assigns and the results of NC_reset_maxopenfiles are compared "
+        "with the model of the open-file table (ct_step).  A case is one call; distinct by (history text, position)")
 TRUSTED = ["Coq 8.16.1 kernel (no native_compute; vm_compute only in Examples)",
            "translator gen/gen_consts.py + plugin gen/plugins/c13_atom.py (kinds consts, enums; plugin: atom.c id macros "
            "with sizeof(atom_t) taken from the typedef, HAinit_group call sites, hfile.c reference-count statements, "
@@ -400,6 +403,12 @@ class Shadow:
             if d["live"] and d["parent"] is not None and not self.slots[d["parent"]]["live"]:
                 d["live"] = False
 
+    def sdreset(self, n, r=None):
+        """SDreset_maxopenfiles(n), then every live SD handle is used (whole content where there is some)"""
+        self.emit("sdreset 0 %d" % n)
+        for s in self.live("sd") + self.live("sds") + self.live("dim"):
+            self.use(s, alt=True)
+
     def vstart(self, s):
         self.emit("vstart %d" % s)
         if self.slots[s]["live"] and self.slots[s]["kind"] == "file":
@@ -505,6 +514,8 @@ def rand_history(r, nops):
                 if r.random() < 0.15:
                     return sh.ops, sh
                 sh.ops.pop()
+        elif x < 0.42 and r.random() < 0.25:
+            sh.sdreset(r.choice([0, 1, 2, 3, 4, 5, 6, 33]))
         elif x < 0.45:
             vgs = sh.live("vg")
             kids = sh.live("vg") + sh.live("vs")
@@ -629,6 +640,45 @@ def xfile_history(r, k):
             sh.release(h)
             for x in r.sample(hs, min(4, len(hs))):
                 sh.use(x, alt=True)
+    teardown(sh)
+    return sh.ops
+
+
+def sdtab_history(r, k):
+    """the table of open SD files: k files opened, some closed out of order, then SDreset_maxopenfiles with every
+    request around the number of open files and the highest occupied position (and a few far ones), every live id
+    used after each request; more opens (first free position, growth after a shrink); full release and a request on
+    the unallocated table; a fresh start."""
+    sh = Shadow(r)
+    nf = 3 + k % 4
+    sds = [sh.sdstart(r.randrange(3), "r") for _ in range(nf)]
+    kids = [sh.child("sds", s, r.choice([0, 1])) for s in sds if r.random() < 0.6]
+    for s in sds:
+        sh.use(s)
+    closing = r.sample(sds, r.randrange(1, nf))
+    if k % 3 == 0:
+        closing = sds[:nf - 1]                    # all but the last: highest position with a single open file
+    for s in closing:
+        sh.release(s)
+    reqs = list(range(0, nf + 2))
+    if k % 2:
+        r.shuffle(reqs)
+    reqs += r.sample([-1, 31, 32, 33, 64, 19999, 20000, 20001, 30000], 2)
+    for n in reqs:
+        sh.sdreset(n)
+    more = [sh.sdstart(r.randrange(3), "r") for _ in range(r.randrange(1, 4))]
+    for s in more:
+        sh.use(s)
+        kids.append(sh.child("sds", s, 0))
+    for n in r.sample(range(0, nf + 4), 3):
+        sh.sdreset(n)
+    teardown(sh)
+    sh.sdreset(r.choice([0, 1, 2, 5, 40]))        # list not allocated: sets the size of the next allocation
+    s = sh.sdstart(r.randrange(3), "r")
+    s2 = sh.sdstart(r.randrange(3), "r")
+    sh.use(s)
+    sh.use(sh.child("sds", s2, 1), alt=True)
+    sh.sdreset(r.choice([1, 2, 3]))
     teardown(sh)
     return sh.ops
 
@@ -783,6 +833,8 @@ def run_mixed(ctx):
             hists.append(("order:" + fam, fam_history(r, fam, perm_index=k)))
     for k in range(60 if quick else 600):
         hists.append(("xfile", xfile_history(r, k)))
+    for k in range(36 if quick else 360):
+        hists.append(("sdtab", sdtab_history(r, k)))
     for k in range(150 if quick else 3000):
         hists.append(("random", rand_history(r, r.randrange(15, 70))[0]))
     for k in range(12 if quick else 150):
@@ -799,7 +851,7 @@ def run_mixed(ctx):
             for _, h in hists:
                 fh.write("N\n" + "\n".join(h) + "\n")
         rc, R = vc.run_lines(exe, tmp, timeout=1500, args=[wd])
-        keep = [l for l in R if re.match(r"^(N$|CRASH|PREPFAIL|-|[OIULP] \d)", l)]
+        keep = [l for l in R if re.match(r"^(N$|CRASH|PREPFAIL|-|Z -?\d|[OIULP] \d)", l)]
         Rh = split_hist(keep)
         if any(l.startswith("PREPFAIL") for l in R) or len(Rh) != len(hists):
             ctx.violation("mixed-history harness did not run (%d of %d histories)" % (len(Rh), len(hists)),
@@ -868,6 +920,54 @@ def run_mixed(ctx):
         if len(ctx.violations) >= 4:
             break
     ctx.corr("H/V/VS/GR/AN/SD~handle-table", **stats)
+    run_cdftab(ctx, hists, Rh, mod)
+
+
+def run_cdftab(ctx, hists, Rh, mod):
+    """R vs M for the table of open SD files: positions chosen by NC_open, results of NC_reset_maxopenfiles"""
+    if any(v["found"] for v in ctx.violations):
+        return
+    evs, inp = [], []
+    for hi, (cls, h) in enumerate(hists):
+        rl = [l for l in Rh[hi] if not l.startswith("CRASH")]
+        lim, ev = 20000, []
+        for l in rl:
+            if l.startswith("Z "):
+                lim = int(l.split()[3])
+        for i, l in enumerate(rl):
+            t = l.split()
+            if t[0] == "O" and t[1] == "9" and t[-1] != "F":
+                ev.append(("o %s %d" % (t[2], lim), (int(t[-1]) >> 20) & 0xfff, i))
+            elif t[0] == "L" and t[1] == "9" and t[-1] != "F":
+                ev.append(("c %d %d" % ((int(t[2]) >> 20) & 0xfff, lim), 0, i))
+            elif t[0] == "Z":
+                ev.append(("r %s %d" % (t[1], lim), int(t[2]), i))
+        evs.append(ev)
+        inp.append("N\n" + "".join(e[0] + "\n" for e in ev))
+    tmp = os.path.join(ctx.bdir, "harness", "c13_ct_%d.in" % os.getpid())
+    open(tmp, "w").write("".join(inp))
+    _, T = vc.run_lines(mod, tmp, timeout=600, args=["ct"])
+    os.unlink(tmp)
+    Th = split_hist(T)
+    stats = {"opens": 0, "closes": 0, "requests": 0, "requests_accepted": 0, "requests_refused": 0, "mismatch": 0}
+    for hi, ev in enumerate(evs):
+        tl = Th[hi] if hi < len(Th) else []
+        for j, (line, rres, i) in enumerate(ev):
+            k = line[0]
+            stats["opens" if k == "o" else "closes" if k == "c" else "requests"] += 1
+            mres = tl[j].split()[1] if j < len(tl) else "missing"
+            if k == "r":
+                stats["requests_accepted" if str(rres) == line.split()[1] else "requests_refused"] += 1
+            if mres != str(rres):
+                stats["mismatch"] += 1
+                if stats["mismatch"] == 1:
+                    ctx.violation("table of open SD files: library differs from the model (relation NC_open / ncclose / "
+                                  "NC_reset_maxopenfiles ~ AtomModel.ct_step) at op %d (%s): library %s, model %s; no id was "
+                                  "found to misbehave" % (i, hists[hi][1][i] if i < len(hists[hi][1]) else "?", rres, mres),
+                                  "# C13 cdf-table correspondence broken; no failing input found\nN\n" +
+                                  "\n".join(hists[hi][1][:i + 1]), found=False)
+                break
+    ctx.corr("NC_open/ncclose/NC_reset_maxopenfiles~AtomModel.ct_step", **stats)
 
 
 def split_hist(lines):
@@ -941,7 +1041,7 @@ def replay(ctx, path):
     bad = 0
     try:
         rc, R = vc.run_lines(exe, tmp, timeout=300, args=[wd])
-        keep = [l for l in R if re.match(r"^(CRASH|-|[OIULP] \d)", l)]
+        keep = [l for l in R if re.match(r"^(CRASH|-|Z -?\d|[OIULP] \d)", l)]
         mon = os.path.join(wd, "mon.in")
         open(mon, "w").write("N\n" + "\n".join(l for l in keep if re.match(r"^[OIULP] ", l)) + "\n")
         _, V = vc.run_lines(mod, mon, args=["ht"])
